@@ -10,19 +10,102 @@ use crate::cli;
 use crate::engine::{enum_stage, gen_stage_show, key_of, pass, Ctx, Outcome, Runtime, Stage, StageReport, Tier};
 use crate::gen;
 use crate::model::{self, code_of_mask, comp_mask, mask_of_code, CODES};
-use ska::ska_dict::bit_encoding::{base_to_prob, decode_base, encode_base, is_ambiguous, rc_base, IUPAC, RC_IUPAC};
+use ska::ska_dict::bit_encoding::{base_to_prob, decode_base, encode_base, is_ambiguous, rc_base};
+
+// the two public lookup tables, when the tree exposes them (harness/build.rs probes the source)
+#[cfg(ska_iupac_table)]
+fn iupac_cell(i: usize) -> Option<u8> {
+    Some(ska::ska_dict::bit_encoding::IUPAC[i])
+}
+#[cfg(not(ska_iupac_table))]
+fn iupac_cell(_i: usize) -> Option<u8> {
+    None
+}
+#[cfg(ska_rc_iupac_table)]
+fn rc_cell(i: usize) -> Option<u8> {
+    Some(ska::ska_dict::bit_encoding::RC_IUPAC[i])
+}
+#[cfg(not(ska_rc_iupac_table))]
+fn rc_cell(_i: usize) -> Option<u8> {
+    None
+}
+
+/// the union update as `SkaDict` performs it: observe the bases of `set` (mask) in A,C,G,T order and
+/// then `extra` for one split k-mer of a single-strand k=7 sample; returns the stored code
+fn union_through_build(rt: &Runtime, set: u8, extra: usize, idx: usize) -> Result<u8, String> {
+    use ska::ska_dict::SkaDict;
+    use ska::{QualFilter, QualOpts};
+    let mut recs: Vec<Vec<u8>> = Vec::new();
+    let mut push = |m: u8| {
+        let mut w = b"ACG".to_vec();
+        w.push(m);
+        w.extend_from_slice(b"TTC");
+        recs.push(w);
+    };
+    for (bit, ch) in [(1u8, b'A'), (2, b'C'), (4, b'G'), (8, b'T')] {
+        if set & bit != 0 {
+            push(ch);
+        }
+    }
+    push(model::BASES[extra]);
+    let dir = rt.scratch_root.join(format!("c15-union-{idx}"));
+    std::fs::create_dir_all(&dir).map_err(|e| e.to_string())?;
+    let f = dir.join("u.fa");
+    cli::write_fasta_auto(&f, &recs, None);
+    let q = QualOpts { min_count: 1, min_qual: 0, qual_filter: QualFilter::NoFilter };
+    let path = cli::p(&f);
+    let res = std::panic::catch_unwind(std::panic::AssertUnwindSafe(|| {
+        let d = SkaDict::<u64>::new(7, 0, (&path, None), "s", false, &q, None);
+        d.kmers().iter().map(|(_, v)| *v).collect::<Vec<u8>>()
+    }));
+    let _ = std::fs::remove_dir_all(&dir);
+    match res {
+        Ok(v) if v.len() == 1 => Ok(v[0]),
+        Ok(v) => Err(format!("{} entries instead of one", v.len())),
+        Err(_) => Err("SkaDict::new panicked".to_string()),
+    }
+}
 
 /// encoded base (A=0,C=1,T=2,G=3) -> mask (A=1,C=2,G=4,T=8)
 fn enc_mask(b: usize) -> u8 {
     [1u8, 2, 8, 4][b]
 }
 
-fn tables(_rt: &Runtime, rep: &mut StageReport) -> Vec<(serde_json::Value, String)> {
+fn tables(rt: &Runtime, rep: &mut StageReport) -> Vec<(serde_json::Value, String)> {
     let mut v = Vec::new();
     let mut n = 0u64;
     let mut nt = 0u64;
+    // 0. the union update as builds perform it: every set of bases x every added base
+    for set in 1u8..16 {
+        for extra in 0..4usize {
+            n += 1;
+            rep.nontrivial_keys.insert(key_of(&("union_build", set, extra)));
+            let expected = code_of_mask(set | [1u8, 2, 4, 8][extra]);
+            match union_through_build(rt, set, extra, (set as usize) * 4 + extra) {
+                Ok(got) if got == expected => {}
+                Ok(got) => v.push((
+                    json!({"route":"SkaDict","observed_set":code_of_mask(set) as char,"added_base":model::BASES[extra] as char}),
+                    format!("a split k-mer observed with the bases of {:?} and then {:?}: stored {:?}, expected {:?}", code_of_mask(set) as char, model::BASES[extra] as char, got as char, expected as char),
+                )),
+                Err(e) => v.push((json!({"route":"SkaDict","set":set,"extra":extra}), format!("union through a build failed: {e}"))),
+            }
+        }
+    }
+    rep.class("union_through_build_cells", 60);
+    let have_union = iupac_cell(0).is_some();
+    let have_rc = rc_cell(0).is_some();
+    if !have_union {
+        rep.class("IUPAC_table_not_exposed_by_this_tree(union decided through builds only)", 1);
+    }
+    if !have_rc {
+        rep.class("RC_IUPAC_table_not_exposed_by_this_tree", 1);
+    }
+    #[allow(non_snake_case)]
+    let IUPAC = |i: usize| iupac_cell(i).unwrap_or(0);
+    #[allow(non_snake_case)]
+    let RC_IUPAC = |i: usize| rc_cell(i).unwrap_or(0);
     // 1. union table, all 4 x 256 cells
-    for b in 0..4usize {
+    for b in (0..4usize).filter(|_| have_union) {
         for c in 0..256usize {
             let up = (c as u8).to_ascii_uppercase();
             let is_letter_code = (c as u8).is_ascii_alphabetic() && mask_of_code(up).is_some();
@@ -31,7 +114,7 @@ fn tables(_rt: &Runtime, rep: &mut StageReport) -> Vec<(serde_json::Value, Strin
             } else {
                 0
             };
-            let got = IUPAC[b * 256 + c];
+            let got = IUPAC(b * 256 + c);
             n += 1;
             if is_letter_code {
                 nt += 1;
@@ -50,18 +133,18 @@ fn tables(_rt: &Runtime, rep: &mut StageReport) -> Vec<(serde_json::Value, Strin
     }
     rep.class("iupac_cells", 1024);
     // 2. induced update is commutative and idempotent (order / multiplicity independence)
-    for c in CODES {
+    for c in CODES.into_iter().filter(|_| have_union) {
         for b1 in 0..4usize {
             for b2 in 0..4usize {
-                let x = IUPAC[b2 * 256 + IUPAC[b1 * 256 + c as usize] as usize];
-                let y = IUPAC[b1 * 256 + IUPAC[b2 * 256 + c as usize] as usize];
+                let x = IUPAC(b2 * 256 + IUPAC(b1 * 256 + c as usize) as usize);
+                let y = IUPAC(b1 * 256 + IUPAC(b2 * 256 + c as usize) as usize);
                 n += 1;
                 rep.nontrivial_keys.insert(key_of(&("comm", c, b1, b2)));
                 if x != y {
                     v.push((json!({"law":"commutative","code":c as char,"b1":b1,"b2":b2}), format!("adding bases {b1},{b2} to {} in the two orders gives {} / {}", c as char, x as char, y as char)));
                 }
-                let once = IUPAC[b1 * 256 + c as usize];
-                let twice = IUPAC[b1 * 256 + once as usize];
+                let once = IUPAC(b1 * 256 + c as usize);
+                let twice = IUPAC(b1 * 256 + once as usize);
                 if once != twice {
                     v.push((json!({"law":"idempotent","code":c as char,"b":b1}), format!("adding base {b1} twice to {} gives {} then {}", c as char, once as char, twice as char)));
                 }
@@ -70,10 +153,10 @@ fn tables(_rt: &Runtime, rep: &mut StageReport) -> Vec<(serde_json::Value, Strin
     }
     rep.class("commutativity_idempotence", 15 * 16);
     // 3. complement table
-    for c in 0..256usize {
+    for c in (0..256usize).filter(|_| have_rc) {
         let ch = c as u8;
         let up = ch.to_ascii_uppercase();
-        let got = RC_IUPAC[c];
+        let got = RC_IUPAC(c);
         n += 1;
         if ch.is_ascii_alphabetic() && mask_of_code(up).is_some() {
             nt += 1;
@@ -82,8 +165,8 @@ fn tables(_rt: &Runtime, rep: &mut StageReport) -> Vec<(serde_json::Value, Strin
             if got != expected {
                 v.push((json!({"table":"RC_IUPAC","byte":c}), format!("RC_IUPAC[{:?}] = {:?}, expected {:?}", ch as char, got as char, expected as char)));
             }
-            if ch.is_ascii_uppercase() && RC_IUPAC[got as usize] != ch {
-                v.push((json!({"table":"RC_IUPAC","byte":c,"law":"involution"}), format!("complementing {:?} twice gives {:?}", ch as char, RC_IUPAC[got as usize] as char)));
+            if ch.is_ascii_uppercase() && RC_IUPAC(got as usize) != ch {
+                v.push((json!({"table":"RC_IUPAC","byte":c,"law":"involution"}), format!("complementing {:?} twice gives {:?}", ch as char, RC_IUPAC(got as usize) as char)));
             }
         } else if ch == b'U' || ch == b'u' {
             // deliberately not asserted (never stored; table and comment disagree) — DESIGN §7
@@ -94,9 +177,9 @@ fn tables(_rt: &Runtime, rep: &mut StageReport) -> Vec<(serde_json::Value, Strin
             }
         }
     }
-    for fixed in [b'S', b'W', b'N', b'-'] {
+    for fixed in [b'S', b'W', b'N', b'-'].into_iter().filter(|_| have_rc) {
         n += 1;
-        if RC_IUPAC[fixed as usize] != fixed {
+        if RC_IUPAC(fixed as usize) != fixed {
             v.push((json!({"table":"RC_IUPAC","fixed_point":fixed as char}), format!("complement does not fix {:?}", fixed as char)));
         }
     }
@@ -162,8 +245,8 @@ fn tables(_rt: &Runtime, rep: &mut StageReport) -> Vec<(serde_json::Value, Strin
     rep.evaluations = n;
     let _ = nt;
     rep.exhaustive = Some(true);
-    rep.samples.push(json!({"IUPAC": "A + Y -> H", "cell": IUPAC[0 * 256 + b'Y' as usize] as char}));
-    rep.samples.push(json!({"RC_IUPAC": "B -> V", "cell": RC_IUPAC[b'B' as usize] as char}));
+    rep.samples.push(json!({"IUPAC": "A + Y -> H", "cell": IUPAC(b'Y' as usize) as char}));
+    rep.samples.push(json!({"RC_IUPAC": "B -> V", "cell": RC_IUPAC(b'B' as usize) as char}));
     v
 }
 
@@ -391,7 +474,7 @@ fn stages(tier: Tier) -> Vec<Box<dyn Stage>> {
     vec![
         enum_stage(
             "tables",
-            "complete enumeration: IUPAC 4x256 cells, commutativity/idempotence 15x4x4, RC_IUPAC 256 cells (U/u and non-code letters not asserted), is_ambiguous and base_to_prob over the 15 codes + U + '-' (both cases for classification), encode/decode/rc of bases; distinct non-trivial = cells that belong to an IUPAC code",
+            "complete enumeration: the union update as builds perform it (15 base sets x 4 added bases, each through SkaDict on a k=7 single-strand sample), IUPAC 4x256 cells (when the tree exposes the table; harness/build.rs probes the source), commutativity/idempotence 15x4x4, RC_IUPAC 256 cells (U/u and non-code letters not asserted), is_ambiguous and base_to_prob over the 15 codes + U + '-' (both cases for classification), encode/decode/rc of bases; distinct non-trivial = cells that belong to an IUPAC code",
             tables,
         ),
         gen_stage_show(
